@@ -39,12 +39,19 @@ class Job:
 
 
 def sh(cmd, timeout=None, cwd=None, env=None, inp=None):
+    """run a command in its own process group; on timeout the whole group is killed (cbmc leaves its SMT solver child behind otherwise)"""
+    import signal
     t0 = time.time()
+    p = subprocess.Popen(cmd, stdout=subprocess.PIPE, stderr=subprocess.PIPE, stdin=subprocess.PIPE if inp is not None else None, cwd=cwd, env=env, start_new_session=True)
     try:
-        p = subprocess.run(cmd, stdout=subprocess.PIPE, stderr=subprocess.PIPE, timeout=timeout, cwd=cwd, env=env, input=inp)
-        return p.returncode, p.stdout.decode(errors='replace'), p.stderr.decode(errors='replace'), time.time() - t0
-    except subprocess.TimeoutExpired as e:
-        return -9, (e.stdout or b'').decode(errors='replace'), 'TIMEOUT', time.time() - t0
+        out, err = p.communicate(input=inp, timeout=timeout)
+        return p.returncode, out.decode(errors='replace'), err.decode(errors='replace'), time.time() - t0
+    except subprocess.TimeoutExpired:
+        try: os.killpg(p.pid, signal.SIGKILL)
+        except Exception: pass
+        try: out, err = p.communicate(timeout=10)
+        except Exception: out, err = b'', b''
+        return -9, (out or b'').decode(errors='replace'), 'TIMEOUT', time.time() - t0
 
 
 def src_path(job):
